@@ -357,7 +357,7 @@ def _worker(arg):
 def run(ctx):
     import ppci.api  # noqa: F401  (import once in the parent, workers are forked)
 
-    n = ctx.scale(960, 32000)
+    n = ctx.scale(640, 32000)
     ctx.pmap(_worker, [(subseed(ctx.seed, PID, w), n // 16) for w in range(16)])
     reached = {t: set() for t in TARGETS}
     for k in list(ctx.stats.hist):
